@@ -443,4 +443,47 @@ Definition regroup (n : Z) (ps : list (list Z)) : list (list Z) :=
 Definition regroup_box (n : Z) (np : nat) (box : list (Z * list Z)) : list (list Z) :=
   regroup n (map (fun i => match assoc_get box (Z.of_nat i) with Some d => d | None => [] end) (seq 0 np)).
 
+(* ---------------------------------------------------------------------------------------------- *)
+(* vocabulary of the statements in Properties/C03.v *)
+
+(* [lin id] is the dataset below the persist() whose PersistedRDD has _rdd_id = id; a lineage is well formed
+   when every Persist node agrees with that registry (ids are unique per dataset object) *)
+Fixpoint wf (lin : Z -> rdd) (r : rdd) : Prop :=
+  match r with
+  | Src => True
+  | Map _ r' => wf lin r'
+  | Persist id r' => lin id = r' /\ wf lin r'
+  | Sample _ _ r' => wf lin r'
+  end.
+
+(* every cache entry (id, i) holds the data of partition i of the dataset with that id *)
+Definition cache_ok (lin : Z -> rdd) (parts : list (list Z)) (c : cache) : Prop :=
+  forall k d, In (k, d) c ->
+    exists n p, snd k = Z.of_nat n /\ nth_error parts n = Some p /\ d = eval (lin (fst k)) (snd k) p.
+
+(* what the job returns when every partition is evaluated on its own: per partition, in partition order *)
+Definition spec_results (r : rdd) (tf : tfun) (parts : list (list Z)) : list (option (list Z)) :=
+  map (fun ip => Some (apply_tfun tf (eval r (Z.of_nat (fst ip)) (snd ip)))) (combine (seq 0 (length parts)) parts).
+
+(* a history of jobs on one context: (lineage, task function, schedule) each *)
+Definition jobspec := (rdd * tfun * list nat)%type.
+Fixpoint run_jobs (b : backend) (v : variant) (js : list jobspec) (parts : list (list Z)) (driver : cache) (sh : shared)
+  : list (list (option (list Z))) * cache :=
+  match js with
+  | [] => ([], driver)
+  | (r, tf, sched) :: js' =>
+      let o := run_job b v r tf parts sched driver sh in
+      let '(rs, d) := run_jobs b v js' parts (o_driver o) (o_shared o) in
+      (o_results o :: rs, d)
+  end.
+Fixpoint run_jobs_local (v : variant) (js : list jobspec) (parts : list (list Z)) (driver : cache) (sh : shared)
+  : list (list (option (list Z))) * cache :=
+  match js with
+  | [] => ([], driver)
+  | (r, tf, _) :: js' =>
+      let '(res, d, sh') := run_local v r tf parts driver sh in
+      let '(rs, d') := run_jobs_local v js' parts d sh' in
+      (res :: rs, d')
+  end.
+
 End WithDraws.
